@@ -123,7 +123,7 @@ def pinned_env(extra=None, hashseed="0"):
         "VERIF_REPO_SRC": REPO_SRC,
     }
     for k in ("VERIF_SEED", "VERIF_TIER", "VERIF_BUDGET_S", "VERIF_SCRATCH", "VERIF_WORKERS",
-              "VERIF_RUNS", "VERIF_P_INVIVO", "VERIF_VARIANT_ENV", "VERIF_VARIANT_NAME", "PYTHONOPTIMIZE", "VERIF_EVIDENCE_DIR", "VERIF_NO_CONFIRM", "VERIF_NO_SELFTEST", "VERIF_DEBUG", "TMPDIR", "VERIF_C14_ONLY"):
+              "VERIF_RUNS", "VERIF_P_INVIVO", "VERIF_VARIANT_ENV", "VERIF_VARIANT_NAME", "PYTHONOPTIMIZE", "VERIF_EVIDENCE_DIR", "VERIF_NO_CONFIRM", "VERIF_NO_SELFTEST", "VERIF_DEBUG", "TMPDIR", "VERIF_C14_ONLY", "VERIF_INVIVO_BIG"):
         if k in os.environ:
             env[k] = os.environ[k]
     if extra:
